@@ -1,0 +1,35 @@
+// apparmor.d - Full set of apparmor profiles
+// SPDX-License-Identifier: GPL-2.0-only
+
+//go:build verif
+
+// Machine-checked contracts for package util (comment-only; only part of the package
+// under the build tag "verif").
+package util
+
+// RemoveDuplicate (instantiated for string, as aa-log uses it): the result holds exactly
+// the non-empty elements of the input, each once, and is never longer than the input.
+//@ func RemoveDuplicate
+//@   opt prop=C14
+//@   opt instance=string
+//@   assigns nothing
+//@   loop 1 invariant len(list) <= iter(1) && iter(1) <= len(inlist)
+//@   loop 1 invariant forall_str(x, has(seen, x) == (x == "" || mem(list, x)))
+//@   loop 1 invariant forall_str(x, mem(list, x) == (x != "" && mem(inlist[:iter(1)], x)))
+//@   loop 1 invariant forall(i, 0, len(list), forall(j, i+1, len(list), list[i] != list[j]))
+//@   ensures forall_str(x, mem(result, x) == (x != "" && mem(inlist, x)))
+//@   ensures forall(i, 0, len(result), forall(j, i+1, len(result), result[i] != result[j]))
+//@   ensures len(result) <= len(inlist)
+
+// DecodeHexInString and RegexReplList.Replace are used as deterministic functions of their
+// arguments by GetApparmorLogs; their bodies (regexp rewriting) are not verified here. That
+// DecodeHexInString does not depend on map iteration order is a separate obligation.
+//@ func DecodeHexInString
+//@   opt prop=C14
+//@   pure
+//@   trusted
+
+//@ func (RegexReplList).Replace
+//@   opt prop=C14
+//@   pure
+//@   trusted
